@@ -119,8 +119,8 @@ def cases(chk):
                 ops = [r.choice(["send-ok", "recv-ok", "recv-ping"]) for _ in range(5)]
                 ops[pos] = k
                 yield "seq", {"ops": ops, "threads": [0] * (pos + 1) + [th] * (4 - pos)}
-    if not chk.quick():
-        yield "seq", {"ops": ["send-oversized", "send-ok", "recv-ok"], "threads": [0, 1, 0]}
+    yield "seq", {"ops": ["send-oversized", "send-ok", "recv-ok"], "threads": [0, 1, 0]}
+    yield "seq", {"ops": ["send-ok", "send-oversized", "send-ok", "send-ok"], "threads": [0, 0, 0, 1]}
     # frames that arrive while the handshake is still running are only queued ("q:" prefix) and flushed in one batch later
     yield "seq", {"ops": ["q:recv-callback-raises", "q:recv-ok", "q:recv-ok", "recv-ok", "recv-ok"], "threads": [0, 0, 0, 0, 1]}
     yield "seq", {"ops": ["q:recv-ok", "q:recv-undecodable", "q:recv-ok", "recv-ok", "send-ok", "recv-ok"], "threads": [0, 0, 0, 0, 0, 0]}
@@ -622,6 +622,9 @@ def run_case(chk, stream, case):
             names = [k for k, v in IDX.items() if held[v]] + (["noise flush lock"] if fl else []) + extra_held
             what = ("C12:lock-leak:" + ("flush" if fl and not any(held) else "layer"),
                     "after op #%d %s (%s) these locks stay held: %s" % (opi, kind, res, ", ".join(names)))
+        elif kind.startswith("send") and kind != "send-ok" and res == "raised" and len(bottom.sent) - nb != 0:
+            what = ("C12:failed-send-leaves-bytes-on-the-wire", "op #%d %s was refused with an error, yet %d chunk(s) (%s bytes) of it reached the network: the peer reads the next "
+                    "frame at the wrong offset" % (opi, kind, len(bottom.sent) - nb, [len(x) for x in bottom.sent[nb:]]))
         elif kind == "send-ok" and len(bottom.sent) - nb != 2:
             what = ("C12:followup-incomplete", "fault-free send wrote %d chunks to the network instead of header+payload" % (len(bottom.sent) - nb))
         elif kind.startswith("recv") and res != "blocked" and got_from != want_from:
